@@ -376,7 +376,7 @@ func findRecordStartIdxPostSearchAsc(idxInStore ptttype.SortIdxInStore, file *os
 			continue
 		}
 
-		if fileCreateTime > createTime {
+		if fileCreateTime < createTime {
 			break
 		}
 
